@@ -96,4 +96,22 @@ CLAIMS = {
         "note": TB + "Texts are rendered from structured records by the scenario generator (lib/synthgen.py); the record travels with the text so TLC never parses text. Texts whose classification the statement leaves open are only in the arbitrary family.",
         "technique": "TLC round-trip check of the TLA+ record encoder + TLC trace validation of synthesised records against the TLA+ wire form",
     },
+    "C15": {
+        "text": "A C program (harness/cdrive.c) is compiled against the header the library ships, with pointer/integer mismatches as errors, and drives the table exactly as a hook does: every entry called by the header's field name, section callbacks with per-record actions (observe name/type/class/TTL/address, set TTL, set address, set raw name, set name with and without default zone, delete, double delete, stop), add to each section incl. a second question and malformed text, rename, raw-packet copy-out with capacities 0 / len-1 / len / 8192, question copy-out, name conversion; abi_version, the last field, is read through the header's layout. The same scripts are executed natively through the Rust API; TLC validates, event by event, that both report the same return value, output values and error description and leave the object in the same state (bytes and every public field), that canaries around every exactly-sized out-buffer are intact, names NUL-terminated within 256 bytes with nothing written behind, addresses exactly 4 or 16 bytes, packets written only when they fit. Scripts: one touching every entry per base packet + seeded random scripts; the thorough tier repeats a subset under valgrind memcheck.",
+        "design_ref": "DESIGN.md section 5, C15",
+        "note": TB + "What the native operations must do is decided by C03-C14; buffer discipline is decided by canaries and (thorough) valgrind, i.e. by runtime monitors whose post-conditions are stated in spec/Trace_CAbi.tla; scripts respect the table's documented preconditions.",
+        "technique": "TLC trace validation of paired executions (C table vs native API) of the same scripts, refinement by event-wise equality",
+    },
+    "C16": {
+        "text": "TLC model-checks the slot machine (spec/Slots.tla): with one slot per thread every read returns the reading thread's most recent failure in all interleavings; with one shared slot (negative control) TLC finds the interleaving that breaks it. Every interleaving TLC enumerates (2 threads x fail-read-fail-read: 70 schedules; thorough also 3 threads: 1680) is replayed on the real table by a coordinator that releases one thread step at a time; failing calls differ per thread and step; TLC validates each recorded schedule: every retrieved description equals the text the same failure has natively on that thread.",
+        "design_ref": "DESIGN.md section 5, C16",
+        "note": TB + "Threads are Rust threads calling the exported table entries; schedules are controlled through channels, not timing.",
+        "technique": "TLC model checking of a TLA+ slot machine over all interleavings + replay of every enumerated schedule on the real table, validated by TLC",
+    },
+    "C17": {
+        "text": "The purity machine (spec/Purity.tla) keeps a memo of the first result of every (function, input) and requires every later result to be byte-identical. TLC enumerates every ordered pair (thorough: triple) of calls from a pool of 14 (parse, uncompress, compress, rename on bytes and on the object, record synthesis, name conversion, empty packet) chosen to make leaked state visible (a packet with 40 distinct suffixes followed by packets sharing its suffixes at other offsets); each history runs back to back on one thread of one process, then the pool runs concurrently on 2, 4 and 8 threads in rotated orders; TLC consumes the whole trace statefully and rejects any result that differs from the first one seen (the id bytes of a synthesised empty packet excepted).",
+        "design_ref": "DESIGN.md section 5, C17",
+        "note": TB + "Schedule independence is tested by free-running threads behind a barrier, not by enumerating interleavings (the oracle does not depend on the schedule).",
+        "technique": "stateful TLC trace validation of TLC-enumerated call histories against a TLA+ memo machine",
+    },
 }
